@@ -1,4 +1,4 @@
-P('C15', shards=8, race=True,
+P('C15', shards=16, race=True,
   technique='property-based testing (rapid-generated handler behaviours, panic values, request batches with up to 16 in flight) with a behavioural model of the response and record parsing per log handler (JSON decoder / key=value tokenizer / positional), under the race detector',
   text='Generated batches of requests run through httpd.Mux + Logger.Relay: handlers write any status 200..599 or nothing, with or without body, then return or panic with a string, error, int, struct, typed nil pointer or panic(nil), before or after writing; matched and unmatched routes; '
        'IPv4 and bracketed IPv6 client addresses; all three log handlers and all thresholds; sequential and up to 16 requests in flight. No panic may escape ServeHTTP, the recorder must see 500 iff the handler panicked before writing, and the parsed records, grouped by request ID, must be '
